@@ -152,6 +152,8 @@ class Check:
         "Derive": {"C08", "C18"},
         "Pair": {"C03", "C11"},
         "Msm": {"C02", "C10", "C20"},
+        "Iso": {"C16", "C14", "C06"},
+        "Hash": {"C13", "C06"},
     }
     ARITH_ALL = {"C01", "C02", "C03", "C04", "C05", "C06", "C07", "C09", "C11", "C12", "C14", "C15", "C17", "C18"}
 
@@ -248,6 +250,13 @@ class Check:
         return {"C02"}
 
     @staticmethod
+    def hash_props(name):
+        n = name.lower()
+        if "tocurve" in n or "to_curve" in n:
+            return {"C06"}
+        return {"C13", "C06"}
+
+    @staticmethod
     def derive_props(name):
         n = name.lower()
         if "sqrt" in n or "legendre" in n:
@@ -262,6 +271,8 @@ class Check:
         self._translated("PP.Props.GenDerive", "GenDerive.lean", self.derive_props, self.DERIVE_ALL, "lake_genderive_s")
         self._translated("PP.Props.GenPair", "GenPair.lean", self.pair_props, {"C03", "C11"}, "lake_genpair_s")
         self._translated("PP.Props.GenMsm", "GenMsm.lean", self.msm_props, {"C02", "C10", "C20"}, "lake_genmsm_s")
+        self._translated("PP.Props.GenIso", "GenIso.lean", lambda n: {"C16", "C14", "C06"}, {"C16", "C14", "C06"}, "lake_geniso_s")
+        self._translated("PP.Props.GenHash", "GenHash.lean", self.hash_props, {"C13", "C06"}, "lake_genhash_s")
 
     def _translated(self, mod, proofs_file, props_of, all_props, tkey):
         if self.pid not in all_props:
